@@ -3,7 +3,7 @@
    A run is any list of atomic boundary actions the LTS of model/C06_Relay.v accepts from `init m`:
    every interleaving of the two copy loops and the parent, every chunking, every read/write error,
    every verdict of the logger, at every point.  `wok_tr tr` = the sinks obeyed the io.Writer contract. *)
-From Hy Require Import lib.Bytes model.C06_Relay proof.C06_Relay gen.ParamsC06.
+From Hy Require Import lib.Bytes model.C06_Relay model.C06_Request proof.C06_Relay proof.C06_Request gen.ParamsC06.
 From Coq Require Import List NArith ZArith.
 Import ListNotations.
 Local Open Scope N_scope.
@@ -33,6 +33,46 @@ Theorem C06_prefix_needs_writer_contract :
   exists l p, lexec Logged Up PRead l = Some p /\ ~ exists rest, lsrc l = lsnk l ++ rest.
 Proof. exact loop_prefix_needs_contract. Qed.
 Print Assumptions C06_prefix_needs_writer_contract.
+
+(* "What the target receives is a prefix of what the CLIENT sent" - not only of what the Up loop read: the client
+   writes the request frame and (fast open: without waiting for the response) its payload on one stream, the server
+   parses the request off the front of that stream and relays what is left.  For every request codec whose reader
+   consumes exactly the frame (read_req (write_req a ++ rest) = Some (a, rest): property C04, a hypothesis here, observed
+   by the harness's request-phase cases), every payload and every run that serves that stream: the target holds a
+   prefix of the payload ... *)
+Theorem C06_target_prefix_of_client_payload :
+  forall (read_req : bytes -> option (bytes * bytes)) (write_req : bytes -> bytes),
+  (forall addr rest, read_req (write_req addr ++ rest) = Some (addr, rest)) ->
+  forall m tr s addr payload, exec (init m) tr = Some s -> wok_tr tr ->
+  serves read_req (client_stream write_req addr payload) tr ->
+  exists rest, payload = snkb Up tr ++ rest.
+Proof. exact target_prefix_of_client. Qed.
+Print Assumptions C06_target_prefix_of_client_payload.
+
+(* ... and the whole payload, all of it approved by the logger, once the Up direction has read the stream to its end
+   and returned nil. *)
+Theorem C06_target_gets_whole_client_payload :
+  forall (read_req : bytes -> option (bytes * bytes)) (write_req : bytes -> bytes),
+  (forall addr rest, read_req (write_req addr ++ rest) = Some (addr, rest)) ->
+  forall m tr s addr payload, exec (init m) tr = Some s -> wok_tr tr ->
+  serves_all read_req (client_stream write_req addr payload) tr ->
+  (pcof s Up = PRet GNil \/ pcof s Up = PDone GNil) ->
+  snkb Up tr = payload /\ (m = Logged -> logged Up tr = blen payload).
+Proof. exact target_gets_all_of_client. Qed.
+Print Assumptions C06_target_gets_whole_client_payload.
+
+(* The hypothesis is needed: with a request reader that reports the right address but reads ahead (a buffered reader
+   when the early payload of a fast-open client has already arrived), a run exists in which the Up direction read the
+   stream to its end and returned nil, yet the target received nothing of a non-empty payload and the logger heard of
+   nothing. *)
+Theorem C06_request_reader_must_not_read_ahead :
+  exists (read_req : bytes -> option (bytes * bytes)) (write_req : bytes -> bytes) addr payload tr s,
+    (forall rest, exists left, read_req (write_req addr ++ rest) = Some (addr, left)) /\
+    exec (init Logged) tr = Some s /\ wok_tr tr /\
+    serves_all read_req (client_stream write_req addr payload) tr /\
+    pcof s Up = PRet GNil /\ snkb Up tr = [] /\ payload <> [] /\ logged Up tr = 0.
+Proof. exact read_ahead_loses_payload. Qed.
+Print Assumptions C06_request_reader_must_not_read_ahead.
 
 (* A direction that has returned nil (its source reached EOF; no veto, no failed write got in the way)
    has delivered the whole of what its source produced, and the logger approved exactly that many bytes. *)
